@@ -61,7 +61,7 @@ _EXTRA = {
     "C03": [T + x for x in ["ValueBuckets_AsValues", "ValueBuckets_AsDurations", "DurationBuckets_AsValues", "DurationBuckets_AsDurations"]],
     "C20": [T + x for x in ["ValueBuckets_AsValues", "ValueBuckets_AsDurations", "DurationBuckets_AsValues", "DurationBuckets_AsDurations"]],
     "C04": [T + x for x in ["_NewRootScopeWithDefaultInterval", "scope_Capabilities"]],
-    "C08": [T + x for x in ["_NewRootScope", "_NewRootScopeWithDefaultInterval"]],
+    "C08": [T + x for x in ["_NewRootScope", "_NewRootScopeWithDefaultInterval", "scope_Tagged", "scope_SubScope", "scope_subscope"]],
     "C10": [T + x for x in ["timerNoReporterSink_ReportCounter", "timerNoReporterSink_ReportGauge", "timerNoReporterSink_Flush", "timerNoReporterSink_Capabilities"]],
     "C11": [T + x for x in ["counterSnapshot_Name", "counterSnapshot_Tags", "counterSnapshot_Value", "gaugeSnapshot_Name", "gaugeSnapshot_Tags", "gaugeSnapshot_Value",
                             "timerSnapshot_Name", "timerSnapshot_Tags", "timerSnapshot_Values", "histogramSnapshot_Name", "histogramSnapshot_Tags",
